@@ -44,7 +44,7 @@ P = 'C09'
 BUDGETS = {'C09': (75, 1200, 40)}
 LEVELS = {'C09': 'exploration'}
 ALLOWED = (ServerError, ProtocolError, SSLVerificationError, NetworkError)
-PROBES = {'C09': ['layer.http', 'layer.web', 'layer.robots', 'layer.ftp', 'layer.crawl', 'robots_redirected_to_other_origin', 'crawl_with_warc', 'crawl_ftp', 'ftp_symlinks', 'continue_with_partial_files', 'long_line', 'raw_random', 'truncated', 'odd_location',
+PROBES = {'C09': ['layer.http', 'layer.web', 'layer.robots', 'layer.ftp', 'layer.crawl', 'robots_redirected_to_other_origin', 'crawl_with_warc', 'crawl_post_data', 'crawl_ftp', 'ftp_symlinks', 'continue_with_partial_files', 'long_line', 'raw_random', 'truncated', 'odd_location',
                   'odd_cookie', 'cookie_flood', 'bad_compression', 'ftp_reply_mutated', 'ftp_listing_mutated', 'hostile_html', 'hostile_css', 'hostile_js',
                   'hostile_sitemap', 'hostile_robots', 'real_file_writer', 'per_url_error_seen', 'healthy_fetched_after_hostile', 'reset', 'stall']}
 INFO = {'C09': {
@@ -486,6 +486,16 @@ def layer_crawl(tape, r, tier):
                 src.inlines.append((res, res.url, 'css' if kind == 'css' else 'script'))
             else:
                 src.links.append((res, res.url))
+        with_post = tape.chance(1, 6, 'crawl.post')
+        post_replayed = False
+        if with_post:
+            for i in range(tape.between(1, 2, 'crawl.post.nredir')):
+                rr = site.add(main, '/moved%d' % i, 'redirect')
+                rr.redirect_to = pages[tape.draw(len(pages), 'crawl.post.redir.dst')]
+                rr.redirect_code = tape.choice((301, 302, 303, 307, 308, 307, 308), 'crawl.post.redir.code')
+                post_replayed = post_replayed or rr.redirect_code in (307, 308)
+                rr.redirect_spelling = rr.redirect_to.url
+                starts[0].links.append((rr, rr.url))
         with_robots = tape.chance(1, 3, 'robots')
         # an FTP origin next to the HTTP one: file URLs (the processor lists the parent directory first), directory URLs,
         # with the control or data connection failing / answering oddly at a drawn command
@@ -530,6 +540,10 @@ def layer_crawl(tape, r, tier):
         dbpath = os.path.join(sandbox, 'db.sqlite')
         if ftp_symlinks:
             extra = extra + ['--retr-symlinks=off']
+        if with_post:
+            # every request is a POST with a body; 307/308 redirects replay it
+            extra = extra + ['--post-data', 'a=1&b=%d' % tape.draw(1000, 'crawl.post.n')]
+            r.probes['crawl_post_data'] += 1
         with_warc = tape.chance(1, 3, 'crawl.warc')
         if with_warc:
             # everything is also archived: the recorder listens to every session, the failing ones included
@@ -605,7 +619,9 @@ def layer_crawl(tape, r, tier):
             # (only when every hostile resource is a document inside well-framed HTTP: a malformed HTTP message can
             # legitimately desynchronise its keep-alive connection and fail the next URL on it as a per-URL error)
             # (nor with --continue: a page whose left-over file the server does not continue fails, and what it links to with it)
-            if not with_robots and ftp_tree is None and '--continue' not in argv and all(x.hostile_kind != 'http' for x in hostile):
+            # (--post-data: wpull replays a POST over a 307/308 hop with the body file at its end, the hop times out - a failure
+            # of that URL, handled per URL, and no subject of C09 - so what lies behind such a hop is not demanded)
+            if not with_robots and ftp_tree is None and '--continue' not in argv and not post_replayed and all(x.hostile_kind != 'http' for x in hostile):
                 ref_rows, expected = crawl.reference_crawl(site, starts, opts, own)
                 reqs = {canon(e['url']) for e in server.log}
                 for u in expected:
